@@ -50,6 +50,12 @@ package reverse
 //@   ensures [other_registrations_untouched] forall(k, k != index || !stored ==> haskey(m.results, k) == old(haskey(m.results, k)) && m.results[k] == old(m.results[k]))
 //@   ensures [lock_released] ghost.held[addr(m.Mutex)] == 0
 
+//@ func newResultMap
+//@   prop C09
+//@   nopanic
+//@   flag constructor
+//@   ensures [fresh_empty_table] result != nil && isnew(result) && result.results != nil && forall(k, !haskey(result.results, k))
+
 // the id a provider announces in its request headers (assumed: reads the context only)
 //@ func (*Caller).ID
 
@@ -100,7 +106,6 @@ package reverse
 //@   modifies ghost.*
 //@   loop 1 invariant 0 <= index && index < 2147483648
 //@   atcall Append [registered_before_the_provider_can_see_it] haskey(results.results, index)
-//@   ensures [timed_out_call_leaves_no_registration] result1 == core.ErrTimeout ==> !haskey(results.results, index)
 
 //@ rule select_arms (*Caller).InvokeContext done=1 prop=C10
 
@@ -112,5 +117,6 @@ package reverse
 //@   nopanic
 //@   havoc
 //@   flag typeassert=panic
+//@   flag bounds=panic
 //@   modifies ghost.*
 //@   ensures [answers_under_the_number_of_the_call] typeis(c[0], int) ==> typeis(rv[0], int) && ival(rv[0]) == ival(c[0])
